@@ -20,8 +20,8 @@ var lcCensus = map[string]string{
 	"tensor.(StdEng).fastCopyDenseRepeat#storage.Copy1":   "finding 32: operand layout not consulted by denseRepeat",
 	"tensor.(StdEng).selectByIdx#storage.CopySliced1":     "SelectByIndices is outside every property",
 	"tensor.(StdEng).selectByIdx#storage.CopySliced2":     "SelectByIndices is outside every property",
-	"tensor.AsFortran#copyArray1":                         "constructor operating on the tensor under construction",
-	"tensor.AsFortran#copyArray2":                         "constructor operating on the tensor under construction",
+	"tensor.AsFortran$1#copyArray1":                         "constructor operating on the tensor under construction",
+	"tensor.AsFortran$1#copyArray2":                         "constructor operating on the tensor under construction",
 	"tensor.Copy#copyDense1":                              "guarded by LG L1 (neither side requires an iterator)",
 	"tensor.ToMat64#copy1":                                "guarded by LG L1 (!IsMaterializable)",
 }
